@@ -22,3 +22,58 @@ Proof.
   unfold C14_Gibbs.block_after. rewrite (states_app Cfg St Rnd Acc step c rs1 s rs2), last_app_default. reflexivity.
 Qed.
 End BlockProofs.
+
+Section SweepProofs.
+Variables Bs V Rnd K : Type.
+Variable bstep : nat -> list V -> Bs -> Rnd -> Bs.
+Variable point : Bs -> V.
+Variable proj : Bs -> K.            (* get_state of a block sampler *)
+Variable pk : K -> V.
+Hypothesis point_proj : forall b, point b = pk (proj b).     (* current_point is a saved key *)
+Hypothesis FPb : forall i vs b1 b2 r, proj b1 = proj b2 -> proj (bstep i vs b1 r) = proj (bstep i vs b2 r).
+Notation inner := (inner Bs V Rnd bstep).
+Notation sweep_aux := (sweep_aux Bs V Rnd bstep point).
+Notation sweep := (sweep Bs V Rnd bstep point).
+Notation gibbs_chain := (gibbs_chain Bs V Rnd bstep point).
+
+Lemma inner_proj i vs rs : forall b1 b2, proj b1 = proj b2 -> proj (inner i vs b1 rs) = proj (inner i vs b2 rs).
+Proof. induction rs as [|r rs IH]; intros b1 b2 E; [exact E|]. cbn. apply IH. apply FPb. exact E. Qed.
+
+Lemma map_point_proj l1 l2 : map proj l1 = map proj l2 -> map point l1 = map point l2.
+Proof.
+  intros E. rewrite (map_ext point (fun b => pk (proj b)) point_proj l1), (map_ext point (fun b => pk (proj b)) point_proj l2).
+  rewrite <- !(map_map proj pk). rewrite E. reflexivity.
+Qed.
+
+Lemma sweep_aux_proj t1 : forall d1 d2 t2 rss, map proj d1 = map proj d2 -> map proj t1 = map proj t2 ->
+  map proj (sweep_aux d1 t1 rss) = map proj (sweep_aux d2 t2 rss).
+Proof.
+  induction t1 as [|b1 t1 IH]; intros d1 d2 t2 rss Ed Et.
+  - destruct t2 as [|b2 t2]; [|discriminate]. cbn. rewrite !app_nil_r. exact Ed.
+  - destruct t2 as [|b2 t2]; [discriminate|]. cbn [map] in Et. injection Et as Eb Et.
+    destruct rss as [|rs rss].
+    + cbn. rewrite !map_app. cbn [map]. rewrite Ed, Eb, Et. reflexivity.
+    + assert (L : length d1 = length d2) by (rewrite <- (map_length proj d1), Ed, map_length; reflexivity).
+      assert (Vs : map point (d1 ++ b1 :: t1) = map point (d2 ++ b2 :: t2)).
+      { apply map_point_proj. rewrite !map_app. cbn [map]. rewrite Ed, Eb, Et. reflexivity. }
+      cbn [C14_Gibbs.sweep_aux]. rewrite L, Vs. apply IH; [|exact Et].
+      rewrite (map_app proj d1), (map_app proj d2). cbn [map]. rewrite Ed. f_equal. f_equal.
+      apply inner_proj. exact Eb.
+Qed.
+
+Lemma sweep_proj l1 l2 rss : map proj l1 = map proj l2 -> map proj (sweep l1 rss) = map proj (sweep l2 rss).
+Proof. intros E. apply sweep_aux_proj; [reflexivity | exact E]. Qed.
+
+(* composite checkpoint: block samplers that agree on what get_state saves record the same chain from then on *)
+Lemma gibbs_chain_proj rsss : forall l1 l2, map proj l1 = map proj l2 -> gibbs_chain l1 rsss = gibbs_chain l2 rsss.
+Proof.
+  induction rsss as [|rss r IH]; intros l1 l2 E; [reflexivity|].
+  cbn [C14_Gibbs.gibbs_chain]. pose proof (sweep_proj l1 l2 rss E) as E'. f_equal; [apply map_point_proj; exact E' | apply IH; exact E'].
+Qed.
+
+(* and sweeps compose: N sweeps then M sweeps record the chain of N + M sweeps *)
+Fixpoint after (bl : list Bs) (rsss : list (list (list Rnd))) : list Bs :=
+  match rsss with [] => bl | rss :: r => after (sweep bl rss) r end.
+Lemma gibbs_chain_app r1 : forall bl r2, gibbs_chain bl (r1 ++ r2) = gibbs_chain bl r1 ++ gibbs_chain (after bl r1) r2.
+Proof. induction r1 as [|rss r1 IH]; intros bl r2; [reflexivity|]. cbn. rewrite IH. reflexivity. Qed.
+End SweepProofs.
